@@ -49,11 +49,15 @@ Definition beh_func (self : str) (b : beh) : option ufunc :=
   | BPanic first l => Some (fun _ => guarded self first l UPanic)
   end.
 
-Inductive hop := HCall (m : str) (a : cargs) | HCalls (m : str) | HResetM (m : str) | HResetAll | HSetFunc (m : str) (b : beh).
-Definition to_op (h : hop) : op :=
+Inductive hop := HCall (m : str) (a : cargs) | HCalls (m : str) | HResetM (m : str) | HResetAll | HSetFunc (m : str) (b : beh)
+               | HKeep (id : nat) (m : str)       (* <M>Calls(), the test keeps the returned slice itself *)
+               | HRecheck (id : nat).             (* the test looks at the kept slice again *)
+Definition to_top (h : hop) : top :=
   match h with
-  | HCall m a => Call m a | HCalls m => Calls m | HResetM m => ResetM m | HResetAll => ResetAll
-  | HSetFunc m b => SetFunc m (beh_func m b)
+  | HCall m a => TOp (Call m a) | HCalls m => TOp (Calls m) | HResetM m => TOp (ResetM m) | HResetAll => TOp ResetAll
+  | HSetFunc m b => TOp (SetFunc m (beh_func m b))
+  | HKeep id m => TKeep id m
+  | HRecheck id => TRecheck id
   end.
 
 (* what the driver sees while a call runs, in order: user-function invocations with the values
@@ -70,7 +74,7 @@ Inductive obs :=
 
 Definition seen_of (ev : list event) : list ievent :=
   flat_map (fun e => match e with EInvoke m a => [IInv m a] | ENested _ x => [INest x] | _ => [] end) ev.
-Definition obs_of (e : op * out * list event) : obs :=
+Definition obs_of {A} (e : A * out * list event) : obs :=
   match e with
   | (_, OUnit, _) => ObUnit
   | (_, ONoMethod, _) => ObNoMethod
@@ -101,7 +105,7 @@ Definition obs_eqb (a b : obs) : bool :=
 
 Record case := { c_mock : mock; c_ops : list hop; c_obs : list obs }.
 
-Definition model_obs (c : case) : list obs := map obs_of (trace FUEL (c_mock c) init (map to_op (c_ops c))).
+Definition model_obs (c : case) : list obs := map obs_of (ttrace FUEL (c_mock c) (init, fun _ => None) (map to_top (c_ops c))).
 Definition check_case (c : case) : bool := list_eqb obs_eqb (model_obs c) (c_obs c).
 
 Fixpoint mismatches_from (i : nat) (cs : list case) : list nat :=
